@@ -249,7 +249,24 @@ pub fn gen_numeral(rng: &mut Rng) -> String {
         }
         if rng.chance(1, 16) {
             // exponents at the edge of the 64-bit scale range (and beyond)
-            let edges: [&str; 8] = ["9223372036854775807", "9223372036854775808", "9223372036854775809", "9223372036854775806", "18446744073709551615", "18446744073709551616", "4611686018427387904", "99999999999999999999999999999999999999999"];
+            let edges: [&str; 16] = [
+                "9223372036854775807",
+                "9223372036854775808",
+                "9223372036854775809",
+                "9223372036854775806",
+                "18446744073709551615",
+                "18446744073709551616",
+                "4611686018427387904",
+                "99999999999999999999999999999999999999999",
+                "2147483647",
+                "2147483648",
+                "4294967295",
+                "4294967296",
+                "4294967297",
+                "8589934592",
+                "4295117296",
+                "281474976710656",
+            ];
             let e: &str = *rng.pick(&edges);
             s.push_str(e);
             return s;
